@@ -113,9 +113,8 @@ func resolveVocab(P *Program) *Vocab {
 	get(&v.postCommit, "fstxn.(*FsTxn).postCommit")
 	get(&v.releaseInodes, "fstxn.(*FsTxn).releaseInodes")
 	get(&v.ReleaseInode, "fstxn.(*FsTxn).ReleaseInode")
-	get(&v.LockInode, "fstxn.(*FsTxn).LockInode")
 	get(&v.GetInodeLocked, "fstxn.(*FsTxn).GetInodeLocked")
-	get(&v.GetInodeInumFree, "fstxn.(*FsTxn).GetInodeInumFree")
+	v.GetInodeInumFree = P.Func("fstxn.(*FsTxn).GetInodeInumFree") // a plain wrapper of GetInodeLocked: may be absent
 	get(&v.GetInodeInum, "fstxn.(*FsTxn).GetInodeInum")
 	get(&v.GetInodeFh, "fstxn.(*FsTxn).GetInodeFh")
 	get(&v.AllocInode, "fstxn.(*FsTxn).AllocInode")
@@ -170,6 +169,11 @@ func resolveVocab(P *Program) *Vocab {
 	get(&v.Decode, "inode.Decode")
 	get(&v.MkFattr, "inode.(*Inode).MkFattr")
 
+	// the function that takes an inode's lock: LockInode, or, in a tree that writes it out in place,
+	// GetInodeLocked itself
+	if v.LockInode = P.Func("fstxn.(*FsTxn).LockInode"); v.LockInode == nil {
+		v.LockInode = v.GetInodeLocked
+	}
 	for _, f := range []*ssa.Function{v.Commit, v.CommitData, v.CommitUnstable, v.CommitFh} {
 		if f != nil {
 			v.Terminators[f] = "commit"
